@@ -12,3 +12,5 @@ pub mod unit;
 
 #[cfg(feature = "verif-hooks")]
 pub mod verif;
+#[cfg(feature = "verif-hooks")]
+pub mod verif_c12;
